@@ -234,6 +234,21 @@ func (e *Engine) registerProto() {
 		return c.ret(nil)
 	})
 	r("os.ReadFile", func(c *CallCtx) []Outcome {
+		if path, ok := c.args[0].(*Str).Const(); ok {
+			if v, ok := c.st.ghost["file:"+path]; ok {
+				tv := v.(TupleV)
+				content, readable := tv[0].(*Str), tv[1].(*Term)
+				a, b := c.e.forkOn(c.st, readable)
+				var outs []Outcome
+				if a != nil {
+					outs = append(outs, Outcome{st: a, val: TupleV{BytesV{s: content}, IfaceV{}}})
+				}
+				if b != nil {
+					outs = append(outs, Outcome{st: b, val: TupleV{BytesV{s: emptyStr, isNil: true}, c.e.newError(b, "read file")}})
+				}
+				return outs
+			}
+		}
 		if _, ok := c.st.ghost["stagedproto"]; ok {
 			return c.ret(TupleV{BytesV{s: constStr("<staged>")}, IfaceV{}})
 		}
@@ -253,6 +268,26 @@ func (e *Engine) registerProto() {
 		cl := c.e.deepClone(c.st, src.v, src.t, map[int]int{}).(Ptr)
 		c.st.store(dst.v.(Ptr), c.st.load(cl))
 		return c.ret(IfaceV{})
+	})
+	r("k8s.io/apimachinery/pkg/api/errors.IsNotFound", func(c *CallCtx) []Outcome {
+		ev := c.args[0].(IfaceV)
+		if ev.t == nil {
+			return c.ret(tFalse)
+		}
+		pt, ok := ev.t.Underlying().(*types.Pointer)
+		if !ok || !isNamed(pt.Elem(), "k8s.io/apimachinery/pkg/api/errors", "StatusError") {
+			return c.ret(tFalse)
+		}
+		p := ev.v.(Ptr)
+		if p.IsNil() {
+			return c.ret(tFalse)
+		}
+		sv := c.st.load(p).(*StructV)
+		stt := pt.Elem()
+		status := sv.f[fieldIndex(stt, "ErrStatus")].(*StructV)
+		st2 := stt.Underlying().(*types.Struct).Field(fieldIndex(stt, "ErrStatus")).Type()
+		reason := status.f[fieldIndex(st2, "Reason")].(*Str)
+		return c.ret(c.st.sEq(reason, constStr("NotFound")))
 	})
 	r("unicode/utf8.RuneCountInString", func(c *CallCtx) []Outcome {
 		s := c.args[0].(*Str)
